@@ -37,7 +37,9 @@
      Bare        the participants only construct FMMULock(path) and later remove() it (the class
                  used on its own); only WindowsDistinct is meaningful then
 
-   Environment: a participant may crash (kill -9) between two calls (MaxCrash), and the calls of
+   Environment: a participant may vanish between two calls (MaxCrash): crash (kill -9), or its
+   task is cancelled while it awaits connect / attach / detach (CancelledError bypasses the
+   `except Exception` handlers of run()); and the calls of
    the start-up that go to the kernel - connect (the raw socket), create_map, attach, obj_pin,
    obj_get - may FAIL with an OSError (MaxFault; f = TRUE in the step): the protocol's error
    handlers then run (first participant: shutil.rmtree(lockdir); joiner: os.remove(own file)),
@@ -234,6 +236,17 @@ Eff(p, c, f) == LET r == Eff0(p, c, f) IN
 CrashEff(p) == [s |-> [sh EXCEPT !.holder = IF @ = p THEN None ELSE @, !.mutex = IF @ = p THEN None ELSE @],
                 l |-> [loc[p] EXCEPT !.pc = "crashed", !.ph = "crashed", !.inst = FALSE]]
 
+(* p's task is cancelled while it awaits connect / attach / detach (the call has no effect yet):
+   asyncio.CancelledError is not an Exception, so NO error handler of run() runs; only the `with
+   interface_lock()` closes its descriptor, then the exception leaves run().  Like a crash, this
+   is a participant vanishing between two operations (it shares the MaxCrash budget); unlike a
+   crashed process it releases the mutex in a step of its own. *)
+Awaiting == {"i_connect", "j_connect", "attach", "detach"}
+CancelEff(p) == [s |-> sh,
+                 l |-> IF Mutex /\ ~Bare /\ sh.mutex = p
+                       THEN [loc[p] EXCEPT !.pc = "mx_fail", !.inst = FALSE]
+                       ELSE Failed(loc[p])]
+
 (* p can take a step: it is not finished and not blocked in lockf / flock *)
 CanStep(p) == /\ loc[p].pc \notin Final
               /\ (Gate(loc[p].pc) = "lock:fmmu" => sh.holder = None)
@@ -258,7 +271,12 @@ PCrash(p) == /\ crashes < MaxCrash /\ loc[p].pc \notin Final /\ loc[p].ph # "idl
              /\ last' = [p |-> p, a |-> "crash", c |-> 0, f |-> FALSE]
              /\ pre' = Pre(p) /\ (MaxPre >= 0 => pre' <= MaxPre)
              /\ crashes' = crashes + 1 /\ UNCHANGED faults
-PNext == \E p \in Procs : PCrash(p) \/ \E c \in ChoiceSet(p) : \E f \in FaultSet(p) : PStep(p, c, f)
+PCancel(p) == /\ crashes < MaxCrash /\ loc[p].pc \in Awaiting
+              /\ LET r == CancelEff(p) IN sh' = r.s /\ loc' = [loc EXCEPT ![p] = r.l]
+              /\ last' = [p |-> p, a |-> "cancel", c |-> 0, f |-> FALSE]
+              /\ pre' = Pre(p) /\ (MaxPre >= 0 => pre' <= MaxPre)
+              /\ crashes' = crashes + 1 /\ UNCHANGED faults
+PNext == \E p \in Procs : PCrash(p) \/ PCancel(p) \/ \E c \in ChoiceSet(p) : \E f \in FaultSet(p) : PStep(p, c, f)
 PSpec == PInit /\ [][PNext]_pvars
 
 -----------------------------------------------------------------------------
